@@ -6,6 +6,13 @@ class CustomError(Exception):
     pass
 
 
+class Outer:
+    """holds an error class declared inside another class: its documented name is vfail.InnerError"""
+
+    class InnerError(Exception):
+        pass
+
+
 def run_step(context):
     cfg = context['vfail']
     if 'when' in cfg:
